@@ -211,7 +211,7 @@ fn replace_aliases(n: &mut Node) {
 }
 
 /// All decorations of a base tree with <= 2 anchors and <= 2 aliases (at least one of either).
-fn decorations(base: &Node, with_merge: bool) -> Vec<Node> {
+fn decorations(base: &Node, with_merge: bool, deep: bool) -> Vec<Node> {
     let paths = treegen::node_paths(base);
     let leaf_paths: Vec<&Vec<usize>> = paths
         .iter()
@@ -233,6 +233,18 @@ fn decorations(base: &Node, with_merge: bool) -> Vec<Node> {
             anchor_sets.push(vec![(&paths[i], "a"), (&paths[j], "b")]);
         }
     }
+    if deep {
+        // three anchors: names (a,a,a), (a,a,b), (a,b,a), (a,b,b), (a,b,c)
+        for i in 0..paths.len() {
+            for j in (i + 1)..paths.len() {
+                for k in (j + 1)..paths.len() {
+                    for (x, y, z) in [("a", "a", "a"), ("a", "a", "b"), ("a", "b", "a"), ("a", "b", "b"), ("a", "b", "c")] {
+                        anchor_sets.push(vec![(&paths[i], x), (&paths[j], y), (&paths[k], z)]);
+                    }
+                }
+            }
+        }
+    }
     let mut alias_sets: Vec<Vec<(&Vec<usize>, &str)>> = vec![vec![]];
     for p in &leaf_paths {
         alias_sets.push(vec![(p, "a")]);
@@ -245,9 +257,27 @@ fn decorations(base: &Node, with_merge: bool) -> Vec<Node> {
             }
         }
     }
+    if deep {
+        for i in 0..leaf_paths.len() {
+            for j in (i + 1)..leaf_paths.len() {
+                for k in (j + 1)..leaf_paths.len() {
+                    for x in ["a", "b", "c"] {
+                        for y in ["a", "b", "c"] {
+                            for z in ["a", "b"] {
+                                alias_sets.push(vec![(leaf_paths[i], x), (leaf_paths[j], y), (leaf_paths[k], z)]);
+                            }
+                        }
+                    }
+                }
+            }
+        }
+    }
     let mut out = Vec::new();
     for an in &anchor_sets {
         for al in &alias_sets {
+            if deep && an.len() < 3 && al.len() < 3 {
+                continue; // covered by the ordinary enumeration
+            }
             if an.is_empty() && al.is_empty() {
                 continue;
             }
@@ -377,7 +407,11 @@ fn main() {
     }
 
     let tier = run.tier;
-    let max_nodes = tier.pick(4, 5);
+    let max_nodes = 5;
+    // thorough also enumerates (a) every placement of 3 anchors / 3 aliases on trees of <= 4 nodes and
+    // (b) trees of 6 nodes over a reduced leaf alphabet
+    let deep_nodes = tier.pick(0, 4);
+    let six = tier == Tier::Thorough;
     let target_names: &[&str] = tier.pick(TARGETS_QUICK, TARGETS_ALL);
     let ro = RenderOpts::new();
 
@@ -389,7 +423,7 @@ fn main() {
     run.count("base_trees", bases.len() as u64);
     let decorated_total = std::sync::atomic::AtomicU64::new(0);
     par_range(bases.len(), |i| {
-        let decs = decorations(&bases[i], true);
+        let decs = decorations(&bases[i], true, false);
         decorated_total.fetch_add(decs.len() as u64, std::sync::atomic::Ordering::Relaxed);
         let mut local: BTreeMap<&'static str, u64> = BTreeMap::new();
         for (j, d) in decs.iter().enumerate() {
@@ -407,6 +441,45 @@ fn main() {
         run.count_map(&local);
     });
     run.count("decorated_trees", decorated_total.load(std::sync::atomic::Ordering::Relaxed));
+
+    // ---- thorough: three anchors / three aliases on small trees
+    if deep_nodes > 0 {
+        let mut small = Vec::new();
+        for n in 1..=deep_nodes {
+            small.extend(treegen::base_trees(n, LEAVES_BASIC));
+        }
+        let deep_total = std::sync::atomic::AtomicU64::new(0);
+        par_range(small.len(), |i| {
+            let decs = decorations(&small[i], false, true);
+            deep_total.fetch_add(decs.len() as u64, std::sync::atomic::Ordering::Relaxed);
+            for d in decs.iter() {
+                for flow in [false, true] {
+                    if let Some(c) = build_case(&run, d, flow, &ro) {
+                        check_case(&run, &c, TARGETS_QUICK, &[0], true);
+                    }
+                }
+            }
+        });
+        run.count("deep_decorated_trees(3 anchors or 3 aliases)", deep_total.load(std::sync::atomic::Ordering::Relaxed));
+    }
+    // ---- thorough: six-node trees over two leaves (plain unique scalar, empty quoted scalar)
+    if six {
+        let leaves2 = &LEAVES_BASIC[..3];
+        let six_trees = treegen::base_trees(6, leaves2);
+        run.count("base_trees_6_nodes", six_trees.len() as u64);
+        let six_total = std::sync::atomic::AtomicU64::new(0);
+        par_range(six_trees.len(), |i| {
+            let decs = decorations(&six_trees[i], true, false);
+            six_total.fetch_add(decs.len() as u64, std::sync::atomic::Ordering::Relaxed);
+            for (j, d) in decs.iter().enumerate() {
+                let flow = (i + j) % 2 == 1;
+                if let Some(c) = build_case(&run, d, flow, &ro) {
+                    check_case(&run, &c, &["Val", "MapStrVal"], &[0], true);
+                }
+            }
+        });
+        run.count("decorated_trees_6_nodes", six_total.load(std::sync::atomic::Ordering::Relaxed));
+    }
 
     // ---- anchor-only relation on richer scalars: attaching an anchor never changes the value
     let scalars: Vec<Node> = {
@@ -450,7 +523,7 @@ fn main() {
     }
 
     // ---- random larger documents
-    let n_random = tier.pick(300_000, 3_000_000);
+    let n_random = tier.pick(1_000_000, 8_000_000);
     par_range(n_random, |i| {
         let mut rng = Rng::stream(run.seed, i as u64);
         let t = random_decorated(&mut rng);
@@ -586,7 +659,8 @@ fn main() {
 
     let _ = reftree::norm_tag;
     let exhaustive_scope = format!(
-        "all base trees with <= {max_nodes} nodes over 5 scalar leaves + empty seq/map, x every placement of <= 2 anchors (names a,a / a,b) x every replacement of <= 2 leaves by aliases (*a,*b) x optional merge-key variant x {{block, flow}}"
+        "all base trees with <= {max_nodes} nodes over 5 scalar leaves + empty seq/map, x every placement of <= 2 anchors (names a,a / a,b) x every replacement of <= 2 leaves by aliases (*a,*b) x optional merge-key variant x {{block, flow}}{}",
+        if six { "; thorough adds: every placement of 3 anchors / 3 aliases on trees of <= 4 nodes; all 6-node trees over three scalar leaves (plain, plain int, empty double-quoted) + empty seq/map with <= 2 anchors / <= 2 aliases (alternating block/flow)" } else { "" }
     );
     let fin = Finish::new(
         "exhaustive small trees + seeded random trees (<=40 nodes, <=6 anchors/aliases); a case is non-trivial when the hook trace shows >=1 Replay pump (Val target; other targets: document contains an alias) or it is a must-fail alias case; distinct by hash(doc, target, option variant)",
